@@ -261,6 +261,9 @@ PROPS = {
             "BPT.Props.C14.rejects_dangling_reference", "BPT.Props.C14.rejects_bad_leaf", "BPT.Props.C14.rejects_bad_branch",
             "BPT.Props.C14.rejects_underfull", "BPT.Props.C14.rejects_out_of_interval",
             "BPT.Props.C14.detailed_sound_partial", "BPT.Props.C14.detailed_rejects_what_basic_rejects",
+            "BPT.Props.C14.detailed_sound", "BPT.Props.C14.rejects_chain_damage", "BPT.Props.C14.rejects_unreachable_node",
+            "BPT.Props.C14.rejects_orphan_leaf", "BPT.Rust.leafIdsFrom_ok", "BPT.Rust.chainIds_nodup", "BPT.Rust.items_along_chain",
+            "BPT.Rust.chain_eq_tree", "BPT.Rust.branchIds_nodup", "BPT.Rust.branches_reachable",
             "BPT.Props.C14.Legacy.validator_accepts_empty_leaf",
         ],
         "ties": ["BPT.Tie.rust_validator_checks_empty", "BPT.Tie.rust_leaf_is_underfull_eq", "BPT.Tie.rust_branch_is_underfull_eq"],
@@ -268,7 +271,7 @@ PROPS = {
             {"kind": "rust", "suite": "tree-damage", "quick": {"cases": 280, "len": 60}, "thorough": {"cases": 14000, "len": 120}},
         ],
         "nontrivial": "each case builds a valid multi-level map, injects ONE precise kind of damage (14 kinds: unsorted, duplicate, count mismatch, over capacity, underfull, emptied node, key outside interval, arity, dangling child, chain skip / truncate / misorder / dangling, orphan allocated leaf) at a generated node/position and runs every validator plus try_insert/try_remove; non-trivial when the damage applied to a map with a branch root; distinct = distinct op-line sequences; the per-kind counts are under structural_events",
-        "trusted_extra": ["chain damage (skip / truncate / misorder / dangling) and orphan nodes being rejected by the detailed validators is decided by the oracle on every damaged map and by the model/implementation correspondence of the validators; the Lean theorem covers the node-level kinds and gives the conjunction the detailed stages establish (`detailed_sound_partial`), not yet the derivation 'chain visits exactly the reachable leaves in order'"],
+        "trusted_extra": ["`detailed_sound` (chain = tree leaves in order, no allocated node unreachable) assumes the per-node capacity fields are intact (`CapsIntact`: every stored leaf's own `capacity` equals the map's, which is >= 2); no documented damage kind touches them, and without it an emptied leaf with a forged capacity field can sit anywhere in the chain unnoticed (the validators compare occupancy with the node's own field)", "a cyclic chain makes the real validators loop forever; the model returns `diverge`, which the theorems count as 'not Ok(())' (the property restricts chain damage to acyclic chains)"],
     },
     "C07": {
         "title": "Python BPlusTreeMap behaves like dict for every call history",
